@@ -649,6 +649,19 @@ func runC09(c *Ctx) {
 	}
 	c.Parallel("to", ref.NearestEven, func(sh *mon.Shard, r *gen.RNG) {
 		j := &floatJudge{ctx: c, sh: sh}
+		// systematic: every one-digit coefficient (and a two-digit cohort sibling) at every
+		// decimal exponent of the float ranges, both signs
+		kk := 0
+		for e := -420; e <= 340; e++ {
+			for dgt := int64(1); dgt <= 9; dgt++ {
+				kk++
+				if kk%c.Shards != sh.ID {
+					continue
+				}
+				j.judgeToFloat(ref.Encode(kk%2 == 0, big.NewInt(dgt), e), "")
+				j.judgeToFloat(ref.Encode(kk%2 == 1, big.NewInt(dgt*10), e-1), "")
+			}
+		}
 		n := c.N(40000, 400000)
 		for i := 0; i < n; i++ {
 			b := genDecimalForFloat(r)
